@@ -156,8 +156,15 @@ def generate(ctx):
     ctx.check("roundtrip", D16_EXAMPLE)
     prev = None
     for i in range(ctx.n(150, 5000)):
-        piece = G.gen_piece(rng, pitch_range=(21, 108), tail_ok=False)
-        kw = cfg_kwargs(rng, len(piece["tracks"]), ctx.thorough)
+        if i % 12 == 5:
+            # many tracks: track indices beyond a MIDI channel number (16..) are legal track counts for the tokeniser
+            piece = G.gen_piece(rng, n_tracks=rng.choice([17, 18, 20]), n_bars=rng.randint(1, 2), max_notes_per_bar=1, pitch_range=(60, 64), tail_ok=False)
+            kw = cfg_kwargs(rng, len(piece["tracks"]), ctx.thorough)
+            kw.update(pitch_range=(60, 64), velocity_bins=rng.choice([1, 2]))
+            ctx.count("tracks:many")
+        else:
+            piece = G.gen_piece(rng, pitch_range=(21, 108), tail_ok=False)
+            kw = cfg_kwargs(rng, len(piece["tracks"]), ctx.thorough)
         cfg = P.TkCfg(**kw)
         nn = sum(len(x) for x in piece["notes"])
         ctx.case((piece["tracks"], sorted(kw.items())), nn >= 2 and (len(piece["tracks"]) > 1 or len(piece["sigs"]) > 1))
